@@ -165,3 +165,32 @@ pub fn show(env: &Env, rest: &[String]) -> i32 {
     }
     0
 }
+
+/// dev-run FILE [handler] : compile and play a file, always choosing 0
+pub fn run_file(_env: &Env, rest: &[String]) -> i32 {
+    let src = std::fs::read_to_string(&rest[0]).unwrap();
+    let handler = rest.get(1).map(|s| s == "handler").unwrap_or(false);
+    match compile(&src) {
+        Ok(json) => {
+            if rest.iter().any(|a| a == "-j") {
+                println!("{json}");
+            }
+            let meta = Rc::new(meta_from_json(&json));
+            let mut h = Host::new(&json, meta, &HostCfg { handler, allow_fallbacks: true, ..HostCfg::default() }).unwrap();
+            for k in 0..10 {
+                for _ in 0..30 {
+                    if !h.story.can_continue() { break; }
+                    h.apply(&HostOp::Continue);
+                }
+                h.apply(&HostOp::ChooseMod(k * 0));
+            }
+            for o in &h.trace {
+                println!("{}", o.show());
+            }
+            println!("errors: {:?}", h.story.get_current_errors());
+            println!("warnings: {:?}", h.story.get_current_warnings());
+        }
+        Err(e) => println!("COMPILE ERROR: {e}"),
+    }
+    0
+}
